@@ -204,6 +204,13 @@ def match_known(known, pid, key):
     return None
 
 
+class Hang(Exception):
+    """a call into the library did not return (the harness watchdog fired)"""
+    def __init__(self, op, args, detail):
+        Exception.__init__(self, detail)
+        self.op, self.args_, self.detail = op, args, detail
+
+
 def run_ops(pid, spec, tier, seed, workdir, extra_harness_args=None):
     """Run harness ops and the driver. Yields (case, out) pairs."""
     os.makedirs(workdir, exist_ok=True)
@@ -227,6 +234,8 @@ def run_ops(pid, spec, tier, seed, workdir, extra_harness_args=None):
             args = op.split() + ['--seed', str(seed), '--tier', tier] + (extra_harness_args or [])
             p = subprocess.run([HARNESS_BIN] + args, stdout=cf, stderr=subprocess.PIPE, env=ENV,
                                timeout=spec.get('timeout', 3000))
+            if p.returncode == 3:
+                raise Hang(op, args, p.stderr.decode()[-600:].strip())
             if p.returncode != 0:
                 raise RuntimeError('harness op failed: %s\n%s' % (op, p.stderr.decode()[-2000:]))
     with open(cases_path, 'rb') as cf, open(outs_path, 'wb') as of:
@@ -246,6 +255,9 @@ def check(pid, tier, seed):
     workdir = os.path.join(CACHE, 'run', pid)
     replay_dir = os.path.join(OUT, 'replay')
     os.makedirs(replay_dir, exist_ok=True)
+    for f in os.listdir(replay_dir):
+        if f.startswith(pid + '-'):
+            os.remove(os.path.join(replay_dir, f))      # replay files of earlier runs of this check
     known, fixed = load_known()
 
     with Lock('build'):
@@ -306,6 +318,20 @@ def check(pid, tier, seed):
                     stats['skip'] += 1
             if worst == 'AGREE':
                 stats['agree'] += 1
+    except Hang as e:
+        # the real library does not return on a generated input: a violation of every property that reads (termination)
+        key = 'hang:%s' % e.op
+        if match_known(known, pid, key) is None:
+            os.makedirs(replay_dir, exist_ok=True)
+            path = os.path.join(replay_dir, '%s-%s.json' % (pid, hashlib.sha1(key.encode()).hexdigest()[:10]))
+            json.dump({'property': pid, 'kind': 'SPECFAIL', 'key': key, 'detail': e.detail,
+                       'replay_cmd': '%s %s   # exits with status 3 when the watchdog fires' % (HARNESS_BIN, ' '.join(e.args_))},
+                      open(path, 'w'), indent=1)
+            print('VIOLATION property=%s replay=%s' % (pid, path))
+            print('%s FAIL tier=%s seed=%d a call into the library did not return (op %s)' % (pid, tier, seed, e.op))
+            return 1
+        print('KNOWN-FINDING: property=%s %s' % (pid, match_known(known, pid, key)['what']))
+        return 0
     except (RuntimeError, subprocess.TimeoutExpired) as e:
         print('CHECK-BROKEN run: %s' % str(e)[:300])
         log(str(e))
